@@ -96,19 +96,13 @@ RELATED = {
 
 # Properties with schedule/fault content for which no check is claimed (yet), with the reason.
 UNCLAIMED = {
-    "C09": "no property-specific oracle built yet (used-bytes floor after exhaustive GC)",
     "C19": "component simulation of BlockPool not built",
     "C20": "component simulation of concurrent side-metadata access not built",
     "C21": "bulk metadata operations: component simulation not built",
     "C23": "component simulation of concurrent header-metadata access not built",
     "C26": "free-list histories have no schedule or fault content; component simulation not built",
     "C27": "grow_freelist under mmap faults: component simulation not built",
-    "C28": "no property-specific oracle built yet (page grant/release event history)",
-    "C29": "no property-specific oracle built yet (Map32 region-map introspection)",
     "C30": "component simulation of the mmapper (concurrent ensure_mapped + mmap faults) not built",
-    "C34": "no property-specific oracle built yet (line mark introspection)",
-    "C36": "no property-specific oracle built yet (treadmill set introspection)",
-    "C37": "no property-specific oracle built yet (Compressor packing order)",
 }
 
 
